@@ -111,6 +111,11 @@ var c01Steps = []c01Step{
 	{"**", func() ref.Node { return &ref.Desc{} }, true},
 	{"$", func() ref.Node { return rvar("") }, false},
 	{"(a.b)", func() ref.Node { return &ref.Paren{Exprs: []ref.Node{rpath(rname("a"), rname("b"))}} }, false},
+	{"($$)", func() ref.Node { return &ref.Paren{Exprs: []ref.Node{rvar("$")}} }, false},
+	{"([a])", func() ref.Node { return &ref.Paren{Exprs: []ref.Node{&ref.Arr{Items: []ref.Node{rpath(rname("a"))}}}} }, false},
+	{"(a[])", func() ref.Node {
+		return &ref.Paren{Exprs: []ref.Node{&ref.Path{Steps: []ref.Node{rname("a")}, Keep: true, KeepAt: -1}}}
+	}, false},
 	{"[a]", func() ref.Node { return &ref.Arr{Items: []ref.Node{rpath(rname("a"))}} }, false},
 	{"[a, b]", func() ref.Node { return &ref.Arr{Items: []ref.Node{rpath(rname("a")), rpath(rname("b"))}} }, false},
 	{`{"k": a}`, func() ref.Node { return robj("k", rpath(rname("a"))) }, false},
@@ -214,7 +219,7 @@ func init() {
 	explore.Register(&explore.Prop{
 		ID:        "C01",
 		Title:     "Paths map over sequences, flatten one level, normalise empty/singleton results",
-		Technique: "exhaustive enumeration of all paths up to a number of steps over 12 step kinds x 6 heads x keep-array marker positions x all null-free documents of depth <=2 (and the triple-nesting family), against a reference path evaluator transcribed from the statement",
+		Technique: "exhaustive enumeration of all paths up to a number of steps over 15 step kinds x 6 heads x keep-array marker positions x all null-free documents of depth <=2 (and the triple-nesting family), against a reference path evaluator transcribed from the statement",
 		Rule: "a case is one (path program, document) pair; oracle: the reference evaluation (per-item mapping, one-level flattening, array-constructor steps as units, empty -> no value, singleton collapse unless [], " +
 			"anchored heads, field/wildcard/descendant selection); results of wildcard steps compared as multisets; non-trivial when the path yields a value",
 		Assumptions: []string{
@@ -265,7 +270,7 @@ func init() {
 				c01Compare(x, c01Build(steps, head, -1, keep), c01NestDoc(di), false)
 			}},
 			{Name: "wildcards-x-nesting", Quick: []int{1, 2}, ShardDepth: 3, Run: func(c *explore.Chooser, x *explore.Ctx, n int) {
-				pool := []c01Step{c01Steps[0], c01Steps[1], c01Steps[3], c01Steps[4], c01Steps[5], c01Steps[10]}
+				pool := []c01Step{c01Steps[0], c01Steps[1], c01Steps[3], c01Steps[4], c01Steps[5], c01Steps[13]}
 				steps := make([]ref.Node, n)
 				for i := range steps {
 					steps[i] = pool[c.Choose(len(pool))].node()
